@@ -258,5 +258,5 @@ def run(mod, root: str, rep: Report) -> Dict[str, object]:
         print(f"self-test: {st['caught']} breaking edits caught, {len(st['missed'])} missed "
               f"{st['missed']}, {st['benign_silent']} benign edits silent, "
               f"{len(st['false_alarms'])} false alarms {st['false_alarms']}, "
-              f"{len(st['skipped'])} skipped, {len(st['errors'])} errors {st['errors'][:3]}")
+              f"{len(st['skipped'])} skipped {st['skipped']}, {len(st['errors'])} errors {st['errors'][:3]}")
     return {"robustness_reruns": rb, "self_test": st}
